@@ -12,7 +12,7 @@
 // verif:replace (*github.com/kubewharf/kubegateway/pkg/flowcontrols/util.Meter).AvgInflight => verifMeterAvg
 // verif:replace (*github.com/kubewharf/kubegateway/pkg/flowcontrols/util.Meter).StartOne => verifMeterNop
 // verif:replace (*github.com/kubewharf/kubegateway/pkg/flowcontrols/util.Meter).EndOne => verifMeterNop
-// verif:opt unwind=12 witnesses=0
+// verif:opt unwind=12 witnesses=24
 
 package remote
 
